@@ -30,6 +30,7 @@ IMPORTS = {
     "C02": [
         ("C10", ["C10.D1", "C10.D2", "C10.D3", "C10.D4", "C10.D6", "C10.D7"], "the scalar chosen can represent every admitted value, so every valid number/string deserializes"),
         ("C09", ["C09.D8", "C09.D3"], "the mutual-exclusion tests that decide how an anyOf is rendered look at both directions of every pair"),
+        ("C01", ["C01.T3"], "a one-element tuple variant is declared `V((T,))`: as `V(T)` it is a newtype variant and the array a valid instance carries is rejected"),
         ("C09", ["C09.D9"], "the alternatives of a nested oneOf are each conjoined with the negation of the *others*: a valid instance is not excluded by its own alternative"),
         ("C09", ["C09.D5", "C09.D1"], "a merge does not drop enum values of the right JSON type and does not declare a satisfiable conjunction empty: instances valid under the allOf stay representable"),
     ],
